@@ -83,6 +83,8 @@ impl CommandState {
 		}
 
 		trace!(?command, "spawning command");
+		#[cfg(all(watchexec_verif, not(test)))]
+		crate::verif::intercept_spawn(&mut spawnable);
 
 		#[cfg(test)]
 		let child = super::TestChild::new(command)?;
